@@ -29,6 +29,8 @@ def specs(ctx):
         if rng.random() < 0.3 and "chain" not in s:
             s["scaler"] = [0.01, 3.0, 250.0][int(rng.integers(3))]
         out.append(s)
+    # scripted objectives: e.g. a converged line search whose accepted (lowest) trial is not the last one evaluated
+    out += corpus.scripted_specs(rng, exhaustive_len=2, n_random=ctx.pick(200, 2000))
     return out
 
 
